@@ -29,6 +29,7 @@ LblOf(e) ==
                                            !.rpc = e.rpc, !.same = e.same]
     [] e.op = "return"    -> [NoLbl EXCEPT !.op = "return", !.err = e.err, !.pan = e.pan, !.hang = e.hang, !.certs = e.certs, !.cm = e.cm]
     [] e.op = "construct" -> [NoLbl EXCEPT !.op = "construct", !.err = e.err]
+    [] e.op = "priorcall" -> [NoLbl EXCEPT !.op = "priorcall", !.err = e.err]
     [] e.op = "otherconf" -> [NoLbl EXCEPT !.op = "otherconf", !.err = e.err]
     [] e.op = "backoff"   -> [NoLbl EXCEPT !.op = "backoff", !.bo = e.bo]
 
